@@ -7,6 +7,8 @@ import (
 	"testing"
 	"time"
 
+	"github.com/jwhited/corebgp"
+
 	"verif/internal/hz"
 	"verif/internal/rt"
 	"verif/internal/wire"
@@ -17,7 +19,7 @@ import (
 
 type c06Sess struct {
 	Remote  int    // hold time proposed by the remote
-	Traffic string // silent | ka | upd | mixed | ocsilent
+	Traffic string // silent | ka | upd | mixed | ocsilent | busy
 	Local   string // none | burst | periodic  (local WriteUpdate pattern)
 }
 
@@ -50,6 +52,16 @@ func c06World(t *testing.T, p c06Params) rt.Result {
 		var wmu sync.Mutex
 		var curLocal string
 		var curH time.Duration
+		var busyFor time.Duration // the handler is busy that long on the session's first UPDATE
+		ps.Cfg.OnUpdate = func(s *hz.Session, idx int, body []byte) *corebgp.Notification {
+			wmu.Lock()
+			d := busyFor
+			wmu.Unlock()
+			if idx == 0 && d > 0 {
+				time.Sleep(d)
+			}
+			return nil
+		}
 		stopW := make(chan struct{})
 		ps.Cfg.OnEst = func(s *hz.Session) {
 			wmu.Lock()
@@ -92,8 +104,12 @@ func c06World(t *testing.T, p c06Params) rt.Result {
 		for si, sp := range p.Sessions {
 			desc := fmt.Sprintf("[%s local=%d session %d: remote=%d traffic=%s local-writes=%s]", p.Dir, p.LocalH, si, sp.Remote, sp.Traffic, sp.Local)
 			H := time.Duration(min(p.LocalH, sp.Remote)) * time.Second
+			busy := sp.Traffic == "busy" && H > 0 && !p.NilH
 			wmu.Lock()
-			curLocal, curH = sp.Local, H
+			curLocal, curH, busyFor = sp.Local, H, 0
+			if busy {
+				busyFor = H + H/10
+			}
 			wmu.Unlock()
 			var rc *hz.RConn
 			if p.Dir == "in" {
@@ -141,6 +157,21 @@ func c06World(t *testing.T, p c06Params) rt.Result {
 				rounds := 4
 				if H > time.Hour {
 					rounds = 2
+				}
+				if busy {
+					// the update handler is busy for longer than the hold time while the remote
+					// keeps sending KEEPALIVEs well inside it: what was received meanwhile counts
+					rc.SendUpdate([]byte{0, 0, 0, 0})
+					for k := 0; k < 10; k++ {
+						time.Sleep(H / 4)
+						rc.SendKeepalive()
+						lastRemote = w.Now()
+						if eof, at := rc.EOF(); eof {
+							w.Violate("%s session torn down at +%v although the remote sent a KEEPALIVE every %v (hold time %v) while the update handler was busy for %v; messages: %s", desc, at, H/4, H, H+H/10, tail(rc.Msgs(), 4))
+							return
+						}
+					}
+					rounds = 0
 				}
 				for k := 0; k < rounds && sp.Traffic != "silent"; k++ {
 					d := iv
@@ -218,6 +249,10 @@ func c06World(t *testing.T, p c06Params) rt.Result {
 			}
 			// cadence while up: consecutive KEEPALIVE/UPDATE from corebgp never more than H/3 apart
 			prev := ms[upFrom].At
+			if busy {
+				ms = nil // a handler that blocks the FSM for more than H/3 also holds up its KEEPALIVEs
+				upFrom = -1
+			}
 			for _, m := range ms[upFrom+1:] {
 				if m.Type == wire.TypeKeepalive {
 					nKA++
@@ -253,7 +288,7 @@ func tail(ms []hz.RMsg, n int) string {
 func TestC06(t *testing.T) {
 	c := rt.Get()
 	holds := []int{0, 3, 4, 9, 10, 30, 90, 65535}
-	traffic := []string{"silent", "ka", "upd", "mixed", "ocsilent"}
+	traffic := []string{"silent", "ka", "upd", "mixed", "ocsilent", "busy"}
 	locals := []string{"none", "burst", "periodic"}
 	idx := 0
 	// the full (local, remote) grid x traffic, single session, both directions
